@@ -69,6 +69,41 @@ def layout(rng, nstems, maxlen=4, maxgap=3, tokens=None, gap0=None):
     return p
 
 
+def chord_diagrams(k):
+    """every interleaving of the 5'/3' tokens of k stems, stems numbered by their 5' end (all chord diagrams on 2k points)"""
+    def rec(open_, nxt, remaining):
+        if remaining == 0 and not open_:
+            yield []
+            return
+        if nxt < k:
+            for rest in rec(open_ + [nxt], nxt + 1, remaining - 1):
+                yield [nxt] + rest
+        for i, s in enumerate(open_):
+            for rest in rec(open_[:i] + open_[i + 1:], nxt, remaining - 1):
+                yield [s] + rest
+    yield from rec([], 0, 2 * k)
+
+
+def thick(tokens, lens, gap=1):
+    """the structure whose stems follow the chord diagram `tokens` with the given numbers of pairs; `gap` unpaired
+    nucleotides between consecutive strands (so that stems never merge)"""
+    pos = 1
+    seen, pairs = {}, {}
+    for t in tokens:
+        if t not in seen:
+            seen[t] = pos
+        else:
+            for q in range(lens[t]):
+                pairs[seen[t] + q] = pos + lens[t] - 1 - q
+        pos += lens[t] + gap
+    n = pos - 1 - gap
+    p = [0] * n
+    for i, j in pairs.items():
+        p[i - 1] = j
+        p[j - 1] = i
+    return p
+
+
 def ladder(k, length=1, gap=0):
     """k mutually crossing stems"""
     toks = list(range(k)) + list(range(k))
